@@ -25,6 +25,7 @@ import (
 	"regexp"
 	"runtime"
 	"runtime/debug"
+	"sort"
 	"strconv"
 	"strings"
 	"sync"
@@ -221,7 +222,8 @@ type c08Msg struct {
 	Buf      int    `json:"bufio_size"`
 	Chunking int    `json:"chunking"` // 0 whole, 1 one byte per read, 2 seven bytes per read, 3/4/5 a read boundary at msg_len / -1 / +1
 	Under    bool   `json:"under_read_allowed,omitempty"`
-	Via      string `json:"via,omitempty"` // grammar | mutation
+	Via      string `json:"via,omitempty"` // grammar | mutation | trailer-sweep
+	Entry    string `json:"entry,omitempty"` // "" = ReadLimitBody; stream = streamed body read to EOF; trailer = header.ReadTrailer on the bare trailer section
 	input    []byte
 }
 
@@ -422,6 +424,18 @@ func c08RunMsg(p *c08Pool, s *c08Slot, m *c08Msg, nh *c08NetHTTP) {
 	if m.Kind == "response" {
 		parser = "Response.ReadLimitBody"
 	}
+	switch m.Entry {
+	case "stream":
+		parser = "Request.ContinueReadBodyStream+BodyStream"
+		if m.Kind == "response" {
+			parser = "Response.ReadLimitBody(StreamBody)+BodyStream"
+		}
+	case "trailer":
+		parser = "RequestHeader.ReadTrailer"
+		if m.Kind == "response" {
+			parser = "ResponseHeader.ReadTrailer"
+		}
+	}
 	p.guard(s, parser, m.art, func() {
 		src := c08MakeSrc(m.input, m.Chunking, m.MsgLen)
 		buf := m.Buf
@@ -429,7 +443,30 @@ func c08RunMsg(p *c08Pool, s *c08Slot, m *c08Msg, nh *c08NetHTTP) {
 		var err error
 		var body []byte
 		formCL := -1 // >= 0: the request body was pre-parsed into a multipart form (Body() would re-marshal the form, not return wire bytes)
-		if m.Kind == "request" {
+		streamed := m.Entry == "stream"
+		switch {
+		case m.Entry == "trailer" && m.Kind == "request":
+			var h RequestHeader
+			err = h.ReadTrailer(br)
+		case m.Entry == "trailer":
+			var h ResponseHeader
+			err = h.ReadTrailer(br)
+		case streamed && m.Kind == "request":
+			var req Request
+			if err = req.Header.Read(br); err == nil {
+				err = req.ContinueReadBodyStream(br, m.MaxBody)
+			}
+			if err == nil && req.BodyStream() != nil {
+				body, err = io.ReadAll(req.BodyStream())
+			}
+		case streamed:
+			var resp Response
+			resp.StreamBody = true
+			err = resp.ReadLimitBody(br, m.MaxBody)
+			if err == nil && resp.BodyStream() != nil {
+				body, err = io.ReadAll(resp.BodyStream())
+			}
+		case m.Kind == "request":
 			var req Request
 			err = req.ReadLimitBody(br, m.MaxBody)
 			if err == nil {
@@ -440,7 +477,7 @@ func c08RunMsg(p *c08Pool, s *c08Slot, m *c08Msg, nh *c08NetHTTP) {
 					body = req.Body()
 				}
 			}
-		} else {
+		default:
 			var resp Response
 			err = resp.ReadLimitBody(br, m.MaxBody)
 			if err == nil {
@@ -453,7 +490,7 @@ func c08RunMsg(p *c08Pool, s *c08Slot, m *c08Msg, nh *c08NetHTTP) {
 		if err != nil {
 			return
 		}
-		if formCL > m.MaxBody || len(body) > m.MaxBody {
+		if !streamed && (formCL > m.MaxBody || len(body) > m.MaxBody) {
 			r.Violation(parser+"-returned-body-over-maxBodySize", fmt.Sprintf("%s returned a %d byte body with maxBodySize %d: %s", parser, len(body), m.MaxBody, m.str()), m.art())
 		}
 		if m.WF && m.MsgLen >= 0 {
@@ -837,6 +874,82 @@ func c08Clip2(b []byte) []byte {
 	return b
 }
 
+// c08TrailerSweep: chunked messages (and bare trailer sections) whose trailer section is size-3 .. size+5 and 2*size
+// bytes long for every bufio size in use, in three shapes (one long field, two fields, a folded field), read buffered,
+// streamed and through ReadTrailer directly, x bufio size x tail x input chunking. The message end is known by
+// construction; a trailer that does not fit the buffer may be rejected, but the call must return.
+func c08TrailerSweep() []*c08Msg {
+	var out []*c08Msg
+	bufs := []int{16, 64, 4096}
+	lens := map[int]bool{}
+	for _, b := range bufs {
+		for d := -3; d <= 5; d++ {
+			lens[b+d] = true
+		}
+		lens[2*b] = true
+	}
+	mk := func(shape, n int) string { // a trailer section of exactly n bytes (incl. the final CRLF CRLF), "" if impossible
+		switch shape {
+		case 0:
+			if k := n - len("X-T: \r\n\r\n"); k >= 0 {
+				return "X-T: " + strings.Repeat("v", k) + "\r\n\r\n"
+			}
+		case 1:
+			if k := n - len("X-T: a\r\nX-U: \r\n\r\n"); k >= 0 {
+				return "X-T: a\r\nX-U: " + strings.Repeat("w", k) + "\r\n\r\n"
+			}
+		case 2:
+			if k := n - len("X-T: a\r\n \r\n\r\n"); k >= 0 {
+				return "X-T: a\r\n " + strings.Repeat("f", k) + "\r\n\r\n"
+			}
+		}
+		return ""
+	}
+	heads := map[string]string{
+		"request":  "POST /p HTTP/1.1\r\nHost: h\r\nTransfer-Encoding: chunked\r\n\r\n3\r\nabc\r\n0\r\n",
+		"response": "HTTP/1.1 200 OK\r\nTransfer-Encoding: chunked\r\n\r\n3\r\nabc\r\n0\r\n",
+	}
+	tails := []string{"", "GET /next HTTP/1.1\r\nHost: n\r\n\r\n"}
+	var ns []int
+	for n := range lens {
+		ns = append(ns, n)
+	}
+	sort.Ints(ns)
+	for _, n := range ns {
+		for shape := 0; shape < 3; shape++ {
+			tr := mk(shape, n)
+			if tr == "" {
+				continue
+			}
+			for _, kind := range []string{"request", "response"} {
+				for _, entry := range []string{"", "stream", "trailer"} {
+					msg := heads[kind] + tr
+					if entry == "trailer" {
+						msg = tr
+					}
+					for _, tail := range tails {
+						input := []byte(msg + tail)
+						for _, bs := range bufs {
+							if bs == 16 && entry != "trailer" {
+								continue // no head fits a 16 byte reader
+							}
+							for _, ch := range []int{0, 1, 2, 3} {
+								if ch == 3 && tail == "" {
+									continue
+								}
+								// shape 2 (obs-fold) is lenient syntax: judged by the weak invariants only
+								out = append(out, &c08Msg{Kind: kind, input: input, MsgLen: len(msg), WF: shape != 2,
+									MaxBody: 4096, Buf: bs, Chunking: ch, Via: "trailer-sweep", Entry: entry})
+							}
+						}
+					}
+				}
+			}
+		}
+	}
+	return out
+}
+
 // ---------------------------------------------------------------------------------------------------------------
 // seeds for the mutation enumeration
 
@@ -1004,6 +1117,7 @@ func TestVerif_C08(t *testing.T) {
 		"once with Content-Length and once with chunked as the canonical framing, x 5 tails (nothing / a next message / CRLFs / garbage / LF-led next response) x maxBodySize {1,7,4096} x bufio size {16,64,4096} x 6 input chunkings "+
 		"(whole, 1 and 7 bytes per read, a read boundary at / before / after the message end), through Request.ReadLimitBody and Response.ReadLimitBody; "+
 		"(2) every <= %d-byte substitution with one of 16 interesting bytes in the repository's fuzz seeds (fuzz_test.go) and 4 canonical messages, x maxBodySize {seed's,1,7,4096} x bufio {16,64,4096} x {whole, 1 byte per read} (2-byte substitutions: seed's maxBodySize, 4096, whole); "+
+		"(2b) chunked requests / responses and bare trailer sections whose trailer section is size-3..size+5 and 2*size bytes for every bufio size {16,64,4096} (one long field / two fields / folded field), read buffered (ReadLimitBody), streamed (ContinueReadBodyStream resp. StreamBody, body stream read to EOF) and through ReadTrailer directly, x bufio size x {no tail, next message} x 4 input chunkings; "+
 		"(3) all strings of <= %d symbols over a 9-symbol alphabet for Cookie.ParseBytes, URI.Parse, Args.ParseBytes, ParseByteRange, VisitHeaderParams, RequestHeader.MultipartFormBoundary and multipart form parsing. "+
 		"Oracle: no panic (recovered per case), every call returns (watchdog, 60 s per case), a returned body never exceeds maxBodySize, and after a successful read of a well-formed generated message the number of consumed bytes "+
 		"(input - bufio.Buffered - unread source) equals the message length known by construction (cross-checked against net/http per message); for lenient / mutated inputs the consumed region must end where a message with the returned body can end "+
@@ -1130,6 +1244,22 @@ func TestVerif_C08(t *testing.T) {
 	})
 
 	r.Set("wall_s_mutations", time.Since(t0).Seconds())
+	t0 = time.Now()
+
+	// ---- (2b) trailer sections sized around every bufio size
+	sweep := c08TrailerSweep()
+	r.Set("trailer_sweep_cases", len(sweep))
+	p.par(len(sweep), func(s *c08Slot, i int) {
+		if stopped.Load() {
+			return
+		}
+		c08RunMsg(p, s, sweep[i], nil)
+		r.Eval(1)
+		if i%1499 == 0 {
+			r.Sample(map[string]any{"enumeration": "trailer-sweep", "kind": sweep[i].Kind, "entry": sweep[i].Entry, "bufio_size": sweep[i].Buf, "msg_len": sweep[i].MsgLen, "input_len": len(sweep[i].input)})
+		}
+	})
+	r.Set("wall_s_trailer_sweep", time.Since(t0).Seconds())
 	t0 = time.Now()
 
 	// ---- (3) value parsers
